@@ -5,7 +5,7 @@ CONSTANTS
   Ticks <- TicksA
   Supplied <- SuppliedA
   Clock0 <- C0
-  MaxLen = 4
+  MaxLen = 3
   MaxRuns = 1
   CountUxs = TRUE
 CONSTRAINT ExportC
